@@ -151,4 +151,6 @@ class SyncDaliHatDriver(DaliHatSerialDriver, SyncDALIDriver):
                     resent_times += 1
             if command.is_query:
                 return command.response(resp)
-            return resp
+            # A command that expects no answer has none, whatever the hat
+            # heard on the bus afterwards
+            return None
